@@ -278,6 +278,16 @@ inline void c03_hand_seeds (std::vector<SeedFile> &v)
 			break ;
 		}
 	}
+	// WAV / WAVEX / RF64 with two 'cue ' chunks (the second a copy of the first, and one announcing 3000 cue points: over the reader's limit)
+	for (const char *base : { "WAV/PCM_16/FILE_ch2_rich", "WAVEX/PCM_16/FILE_ch1_rich", "RF64/PCM_16/FILE_ch1_rich" }) if (const SeedFile *b = find (base))
+	{	for (auto &k : walk_iff (b->bytes)) if (k.id == "cue " && k.data + k.size <= b->bytes.size ())
+		{	std::vector<uint8_t> cu (b->bytes.begin () + (long) k.hdr, b->bytes.begin () + (long) (k.data + k.size + (k.size & 1))) ;
+			std::vector<uint8_t> f1 = b->bytes ; if (iff_insert (f1, "data", cu)) add.push_back ({ std::string (base) + "_hand_cue_twice", f1, b->format, b->ch, true }) ;
+			std::vector<uint8_t> cu2 = cu ; if (cu2.size () >= 12) { cu2 [8] = 0xb8 ; cu2 [9] = 0x0b ; cu2 [10] = 0 ; cu2 [11] = 0 ; }	// count 3000, little endian
+			std::vector<uint8_t> f2 = b->bytes ; if (iff_insert (f2, "data", cu2)) add.push_back ({ std::string (base) + "_hand_cue_3000", f2, b->format, b->ch, true }) ;
+			break ;
+		}
+	}
 	// SVX: text chunks, CHAN, envelope chunks in front of BODY
 	for (const char *base : { "SVX/PCM_S8/FILE_ch1", "SVX/PCM_16/FILE_ch1" }) if (const SeedFile *b = find (base))
 	{	std::vector<uint8_t> f = b->bytes, extra ;
